@@ -5,7 +5,13 @@
    pre-NAT destination that equals or differs from the post-NAT one.  Prints one BEH line per case. *)
 EXTENDS TraceLib, PolicyProbes, BPFSem, SequencesExt
 
+CONSTANT MaxBase          \* cap on the number of base probe packets per case (deterministic thinning)
+
 TInit == l = 1
+
+Thin(S) == IF Cardinality(S) <= MaxBase THEN S
+           ELSE LET s == SetToSeq(S)  step == (Len(s) + MaxBase - 1) \div MaxBase
+                IN { s[i] : i \in { j \in 1..Len(s) : j % step = (Cur.case % step) } }
 
 \* host flags: forwarded, to host, from host; pre-NAT destination variants only matter when some tier is
 \* matched against the pre-NAT destination (pre-DNAT tiers, or untracked policy in an XDP program)
@@ -15,7 +21,7 @@ Variants(p, others, usesPre) ==
         f \in { <<FALSE, FALSE>>, <<TRUE, FALSE>>, <<FALSE, TRUE>> } }
 
 CaseProbes(c) ==
-    LET base == RulesProbes(AllRules(c.cfg), c.cfg.ipv, c.sets)
+    LET base == Thin(RulesProbes(AllRules(c.cfg), c.cfg.ipv, c.sets))
         \* a few alternative pre-NAT destinations taken from the probes themselves
         alt == IF Cardinality(base) <= 3 THEN base
                ELSE LET s == SetToSeq(base) IN { s[1], s[(Len(s) + 1) \div 2], s[Len(s)] }
